@@ -24,8 +24,8 @@ RULE = ("case = configuration (limit 1..2, expiration none/2/3/5, function|metho
         "0..2, cancel caller, open the gate of an invocation with result|exception, advance clock, run loop to quiescence}; "
         "the wrapped coroutine blocks on a per-invocation gate, so callers arrive before the invocation starts, while it "
         "runs, after its gate opened and after it finished, and any caller is cancelled before it started, while suspended, "
-        "or after the gate opened; quick: directed corpus + all pruned schedules of length<=4 (<=3 callers, 2 keys, limit 1, "
-        "expiration none|2) + 800 random schedules with 2..4 callers (sometimes up to 6); thorough: length<=6 + 60000 random. "
+        "or after the gate opened; quick: directed corpus + all pruned schedules of length<=5 (<=3 callers, 2 keys, limit 1, "
+        "expiration none|2) + 4000 random schedules with 2..4 callers (sometimes up to 6); thorough: length<=7 + 150000 random. "
         "non-trivial = at least two callers received the outcome of one invocation (shared in-flight call) AND (a pending "
         "caller was cancelled OR the same key was invoked twice: expiry/eviction); distinct = by case text")
 TRUSTED = ["asyncio semantics as modelled in Haiway/Model/AsyncCache.lean: FIFO ready queue (callers enter in creation order), "
@@ -155,6 +155,21 @@ def run_real(case: str) -> str:
         return "no-quiescence"
     finally:
         vloop.close_loop(loop)
+
+
+
+def setup() -> None:
+    """Local workaround (reported): harness/vloop.py freezes `time.monotonic` process-wide, and
+    `multiprocessing.connection.wait(…, timeout=0.0)` then never reaches its deadline – the Pool used by
+    core.run_real_many in the thorough tier spins and never terminates.  multiprocessing gets the real clock."""
+    import multiprocessing.connection as mpc
+    import multiprocessing.queues as mpq
+    import time
+    import types
+
+    shim = types.SimpleNamespace(monotonic=vloop.real_monotonic, sleep=vloop._REAL_SLEEP, time=time.time)
+    mpc.time = shim
+    mpq.time = shim
 
 
 # ------------------------------------------------------------------------------------------------
@@ -355,11 +370,11 @@ def enumerate_schedules(max_len: int, exps=(None, 2)):
 
 def generate(rng, tier):
     if tier == "quick":
-        yield from enumerate_schedules(4)
-        n = 800
+        yield from enumerate_schedules(5)
+        n = 4000
     else:
-        yield from enumerate_schedules(6)
-        n = 60000
+        yield from enumerate_schedules(7)
+        n = 150000
     for _ in range(n):
         yield random_case(rng)
 
